@@ -53,7 +53,7 @@ Bounds boundsFor(const vr::Args &args)
   }
   else
   {
-    b.maxLen = 5;
+    b.maxLen = 4;
     b.cLen = 4;
     b.dLen = 2;
   }
